@@ -11,7 +11,13 @@
 #define MAXO 8
 static var* objs_;           /* points at an array in main's frame: copies are collector-managed */
 static int managed_[MAXO];
-static void drop_(int i) { if (objs_[i]) { if (managed_[i]) del(objs_[i]); else del_raw(objs_[i]); objs_[i] = NULL; } }
+static var holder_[MAXO];     /* newin: the String is an element / a value of this container (its header says so: allocation class Data) */
+static void drop_(int i) { if (objs_[i]) { if (holder_[i]) { del_raw(holder_[i]); holder_[i] = NULL; } else if (managed_[i]) del(objs_[i]); else del_raw(objs_[i]); objs_[i] = NULL; } }
+static long holder_bad(int i) {       /* the other elements of the container are untouched by what happened to this one */
+  var c = holder_[i]; if (!c) return 0;
+  if (type_of(c) == Array || type_of(c) == List) return (len(c) == 3 && !strcmp(c_str(get(c, $I(0))), "left") && !strcmp(c_str(get(c, $I(2))), "right") && get(c, $I(1)) == objs_[i]) ? 0 : 1;
+  return (len(c) == 2 && !strcmp(c_str(get(c, $I(2))), "other") && get(c, $I(1)) == objs_[i]) ? 0 : 1;
+}
 
 static void emit_bytes(const char* k, const char* s) {
   ev_key(k); ev_s("[");
@@ -30,7 +36,9 @@ static void emit(const char* op, int o, int p, long long n, const char* a, const
     ev_limbs("h", hash(s)); ev_int("cap", (long long)malloc_usable_size(s->val));
     ev_obj_end();
   }
-  ev_arr_end(); ev_int("line", cur_line); ev_end();
+  ev_arr_end();
+  { long nb = 0; for (int i = 1; i < MAXO; i++) if (objs_[i]) nb += holder_bad(i); ev_int("nbbad", nb); }
+  ev_int("line", cur_line); ev_end();
 }
 
 int main(int argc, char** argv) {
@@ -49,6 +57,12 @@ int main(int argc, char** argv) {
     int o = (int)hc_int(1);
     if (o <= 0 || o >= MAXO) return 9;
     if (hc_is(0, "new")) { char* a = arg(2); volatile var m = NULL; drop_(o); HC_TRY(m = new_raw(String, $S(a))); objs_[o] = m; managed_[o] = 0; emit("new", o, 0, 0, a, hc_exc, 0); continue; }
+    if (hc_is(0, "newin")) {            /* newin <o> <A|L|T|R> <hex> : the String lives inside an Array / a List (element) or a Table / Tree (value) */
+      char how = hc_w[2][0]; char* a = arg(3); volatile var c = NULL; volatile var m = NULL; drop_(o);
+      HC_TRY(
+        if (how == 'A' || how == 'L') { c = new_raw_with(how == 'A' ? Array : List, tuple(String, $S("left"), $S(a), $S("right"))); m = get(c, $I(1)); }
+        else { c = new_raw_with(how == 'T' ? Table : Tree, tuple(Int, String, $I(1), $S(a), $I(2), $S("other"))); m = get(c, $I(1)); });
+      objs_[o] = m; holder_[o] = c; managed_[o] = 0; emit("new", o, 0, 0, a, hc_exc, 0); continue; }
     if (hc_is(0, "copy")) { int p = (int)hc_int(2); drop_(o); volatile var m = NULL; HC_TRY(m = copy(objs_[p])); objs_[o] = m; managed_[o] = 1; emit("copy", o, p, 0, "", hc_exc, 0); continue; }
     var s = objs_[o];
     if (!s) { ev_begin("missing"); ev_end(); continue; }
